@@ -150,6 +150,7 @@ type VC struct {
 	pure     int
 	noFacts  int
 	onlyOpcase string
+	atUsed   map[string]int // site assertions (at closure / at call) that were applicable at least once
 	selfWritten map[string]bool // heap keys this function may write itself
 	forallAlt map[string][]string // index-quantified forall -> equivalent cell-triggered variants
 }
@@ -206,11 +207,22 @@ func (vc *VC) assume(st *State, f string) {
 		return
 	}
 	f = vc.strengthen(f)
+	st.align()
 	st.assumes = append(st.assumes, f)
 	st.conds = append(st.conds, false)
 }
 
 func (s *State) isCond(i int) bool { return i < len(s.conds) && s.conds[i] }
+
+// align keeps conds parallel to assumes (entries added without a flag are definitional facts).
+func (s *State) align() {
+	for len(s.conds) < len(s.assumes) {
+		s.conds = append(s.conds, false)
+	}
+	if len(s.conds) > len(s.assumes) {
+		s.conds = s.conds[:len(s.assumes)]
+	}
+}
 
 // ---------------------------------------------------------------------
 // sorts
@@ -610,7 +622,16 @@ func intRange(b *types.Basic) (lo, hi string, ok bool) {
 func (vc *VC) loadAt(st *State, p T, t types.Type) T {
 	if p.Loc != nil {
 		v := vc.hload(st, p.Loc.Key, vc.sortOf(t), p.Loc.Base)
-		vc.refFacts(st, v, t)
+		if vc.heapImm[p.Loc.Key] && !vc.selfWritten[p.Loc.Key] {
+			// a reference read from memory that never changes after package
+			// initialisation existed before this call started
+			saved := st.mark
+			st.mark = "mark0"
+			vc.refFacts(st, v, t)
+			st.mark = saved
+		} else {
+			vc.refFacts(st, v, t)
+		}
 		return v
 	}
 	if si := isModStruct(vc, t); si != nil {
